@@ -6,7 +6,7 @@
    with the content and with the model's load.   Proved in Coq so far (stages of T2, for all inputs):
    scalars (C12), the whole data section (every frame, point, residual, analog sample, any sizes), name
    binding by position, the stream discipline, and that the loader reaches no unchecked access. *)
-From EZ Require Import Base Bytes Types Api Enc Dec Float32 Run Proofs_Bytes Proofs_Codec Proofs_Record Proofs_Robust.
+From EZ Require Import Base Bytes Types Api Enc Dec Float32 Run Proofs_Bytes Proofs_Codec Proofs_Record Proofs_Chain Proofs_Robust.
 Local Open Scope N_scope.
 
 (* stage: a float is read back as the pattern its four bytes spell *)
@@ -57,6 +57,22 @@ Theorem C02_parameter_record : forall p st r,
         adv st (length (p_name p) + 2 + length (param_body p ++ param_tail p)) r).
 Proof. exact read_param_written. Qed.
 Print Assumptions C02_parameter_record.
+
+(* the record walker on any sequence of well-formed group and parameter records closed by the end marker: the tree is
+   rebuilt record by record (apply_items is the walker's effect written without the stream), every next-record pointer
+   lands on the next record, and the stream ends just after the end marker *)
+Theorem C02_record_chain : forall its fuel gs st r,
+  Forall wf_item its -> (length its < fuel)%nat -> st_fail st = false -> 0 < st_pos st ->
+  (Z.of_N (st_pos st) + Z.of_nat (items_len its) < 2147483648)%Z ->
+  st_rest st = concat (map item_bytes its) ++ 0 :: r ->
+  walk fuel (Z.of_N (st_pos st)) gs st =
+    match apply_items its gs with
+    | Ok gs' => Ok (gs', adv st (items_len its + 1) r)
+    | Throw e => Throw e
+    | UB t => UB t
+    end.
+Proof. exact walk_items. Qed.
+Print Assumptions C02_record_chain.
 
 Example C02_nonvacuous :
   let rate := mkParam nm_RATE [] false TFloat [1] [] [1120403456] [] in
